@@ -104,6 +104,9 @@ func attrValue(start xml.StartElement, local string) string {
 	return ""
 }
 
+// maxSpaceRun bounds the run of spaces a single <text:s text:c="N"/> expands to.
+const maxSpaceRun = 1 << 16
+
 // decodeInline reads the content of a paragraph-like element up to its end tag and
 // returns its text in document order: character data, the content of spans, links and
 // other inline containers, text:tab as a tab, text:line-break as a newline and text:s
@@ -132,6 +135,10 @@ func decodeInline(d *xml.Decoder) (string, []spanXML, error) {
 			case "s":
 				n := 1
 				if c, err := strconv.Atoi(attrValue(t, "c")); err == nil && c > 0 {
+					// the count comes from the file: bound the run it expands to
+					if c > maxSpaceRun {
+						c = maxSpaceRun
+					}
 					n = c
 				}
 				sb.WriteString(strings.Repeat(" ", n))
